@@ -43,8 +43,9 @@ BOUNDS = {
              "packets and on the L<=4 corruptions of Service17Tm/Service1Tm packets; setter histories to depth 2",
     "thorough": "the same 144 patterns per offset on the whole thorough corpus (check_pus_crc on every PUS corruption) plus ALL "
                 "32768 patterns per offset (every burst L<=16) on a selected corpus: PusTc, PusTm, Service17Tm, Service1Tm one "
-                "packet each, every PDU kind with all optional parts (32-bit, 1-octet IDs) and EOF/Metadata/NAK/KeepAlive/FileData "
-                "with 64-bit fields and 2/4-octet IDs; setter histories to depth 3",
+                "packet each, every PDU kind with all optional parts (32-bit, 1-octet IDs) and EOF/NAK/KeepAlive/FileData "
+                "with 64-bit fields and 2/4-octet IDs (16 packets, 400 octets; check_pus_crc on every corruption of the PusTc and PusTm "
+                "packet, L<=4 for the two wrapper packets); setter histories to depth 3",
 }
 ASSUMPTIONS = [
     "corpus packets are the reference octets of ref/pus.py / ref/cfdp.py (bound to the repository's vectors by selftest/st_ref_*.py); "
@@ -95,7 +96,7 @@ def corpus_of(unit, tier):
 
 CFG_A = {"crc": 1, "large": 0, "idw": 1, "seqw": 1, "mode": 0}
 CFG_B = {"crc": 1, "large": 1, "idw": 2, "seqw": 4, "mode": 1}
-KINDS_B = ("EofPdu", "MetadataPdu", "NakPdu", "KeepAlivePdu", "FileDataPdu")
+KINDS_B = ("EofPdu", "NakPdu", "KeepAlivePdu", "FileDataPdu")  # the kinds with a 64-bit field right before the trailer / after the directive code
 _FULL = []
 
 
@@ -204,7 +205,29 @@ def shards(tier):
             for lo in range(0, nb, 8):
                 heavy.append({"kind": "flip", "unit": name, "src": "full", "i": j, "fam": "full", "lo": lo, "hi": lo + 8, "tier": tier})
         items = heavy + items  # the long shards first keeps the 16 workers evenly loaded to the end
-    return items
+    # one shard of several kinds first, so that the evidence samples (the first six) show both clauses and several units
+    show, seen = [], set()
+    for want in SHOWCASE:
+        for it in items:
+            if (it["kind"], it["unit"]) == want and it.get("lo", 0) == 0 and it["i"] == (1 if it["unit"] in U.PDU_KINDS and it.get("src") != "full" else it["i"]) and id(it) not in seen:
+                show.append(it)
+                seen.add(id(it))
+                break
+    return show + [it for it in items if id(it) not in seen]
+
+
+SHOWCASE = [("valid", "PusTc"), ("flip", "PusTc"), ("flip", "EofPdu"), ("valid", "MetadataPdu"), ("flip", "FileDataPdu"), ("flip", "Service1Tm")]
+
+
+def _ranges(bits):
+    """[32, 33, ..., 47] -> [[32, 47]]"""
+    out = []
+    for b in sorted(bits):
+        if out and out[-1][1] == b - 1:
+            out[-1][1] = b
+        else:
+            out.append([b, b])
+    return out
 
 
 def _recipe_of(item):
@@ -251,7 +274,15 @@ def _region(unit, raw, bits):
     return "+".join(out)
 
 
-def flip_one(rec, unit, recipe, off, L, pat, crc=True):
+class _NoGuard:
+    def __enter__(self):
+        return self
+
+    def __exit__(self, *exc):
+        return False
+
+
+def flip_one(rec, unit, recipe, off, L, pat, crc=True, guard=True):
     """one corruption through every decoder of the unit (+ check_pus_crc); reports violations.  Used by replay and by
     the shard loop for every corruption its fast path found suspicious, so both judge with the same code."""
     raw = unit.ref(recipe)
@@ -265,7 +296,8 @@ def flip_one(rec, unit, recipe, off, L, pat, crc=True):
         repro = (f"buf = bytes.fromhex('{c.hex()}')  # valid packet {raw.hex()} with bit(s) {bits} flipped (bit 0 = MSB of octet 0)\n"
                  + _decoder_src(unit, dn, recipe) + "\nassert False, 'corrupted packet accepted: %r' % (r,)  # a documented error must be raised")
         try:
-            with Watchdog(SINGLE_BUDGET_S):
+            # guard=False inside the shard loop, whose per-offset watchdog is already running (watchdogs do not nest)
+            with (Watchdog(SINGLE_BUDGET_S) if guard else _NoGuard()):
                 r = dec(c, recipe)
         except documented:
             continue
@@ -365,7 +397,7 @@ def run_flip(rec, item):
                 except Exception:
                     sus = True
             if sus:
-                flip_one(rec, unit, recipe, off, L, pat, crc=L <= crc_maxL)
+                flip_one(rec, unit, recipe, off, L, pat, crc=L <= crc_maxL, guard=False)
         return ncorr, nskip, ncrc
 
     for off in range(lo, hi):
@@ -419,7 +451,7 @@ def run_flip(rec, item):
     if lo == 0:
         L, pat = family(item["fam"])[-1]
         off = next((o for o in range(nb - L + 1) if not ((pat << (nb - o - L)) & E)), 0)
-        rec.sample({"unit": name, "recipe": recipe, "valid_packet": raw, "length_determining_bits": sorted(unit.length_bits(raw)),
+        rec.sample({"unit": name, "recipe": recipe, "valid_packet": raw, "length_determining_bit_ranges": _ranges(unit.length_bits(raw)),
                     "example_corruption": {"bit_offset": off, "burst_length": L, "pattern": bin(pat), "octets": corrupt(raw, off, L, pat)},
                     "patterns_per_offset": len(fam), "decoders": [dn for dn, _ in decs],
                     "expected": "every decoder raises one of " + ", ".join(t.__name__ for t in documented)}, limit=1)
@@ -437,8 +469,6 @@ class Failure:
 
 
 STARTS = ["new", "packed", "decoded"]
-ROUTE_SUBJECT = {"pack": "pack", "pack+pack": "pack", "pack+norecalc": "pack(recalc_crc=False)-after-pack",
-                 "calc_crc+norecalc": "calc_crc", "to_space_packet": "to_space_packet"}
 
 
 def routes_of(name):
@@ -654,7 +684,7 @@ def eval_valid(unit, recipe, start, history, route):
         raw = route_pack(obj, route)
     except Exception as e:
         raise Skip(f"history not executable / not packable: {type(e).__name__}")
-    return judge_packet(unit, recipe, raw, f"{unit.name}.{ROUTE_SUBJECT[route]}")
+    return judge_packet(unit, recipe, raw, unit.name + ".pack")
 
 
 def _try(unit, recipe, start, history, route, key):
@@ -771,10 +801,12 @@ def valid_case(rec, unit, recipe, start, history, route, tier, count=True):
         rec.count("valid_cases/" + unit.name)
     if fail is None:
         return
-    # one minimisation per (site, event names, start, route) and shard is enough: the signature is what is kept
-    ck = (unit.name, fail.key(), tuple(sorted({event_name(e) for e in history})), start, route)
+    # one minimisation per (packet, site, event names, start, route) is enough: the signature is what is kept
+    ck = (unit.name, repr(recipe), fail.key(), tuple(sorted({event_name(e) for e in history})), start, route)
     hit = _SEEN_SITES.get(ck)
     if hit is None:
+        if start == "packed":  # the same thing as a fresh object whose history begins with pack()
+            start, history = "new", [["call", "pack"]] + list(history)
         mstart, mhist, mroute, mfail = minimise(unit, recipe, start, history, route, fail)
         sig = f"C04.{mfail.clause}/{mfail.subject}/{mfail.key()[2]}"
         base = baseline_sites(unit, tier)
@@ -788,7 +820,7 @@ def valid_case(rec, unit, recipe, start, history, route, tier, count=True):
                 sig += "/after=" + "+".join(names)
             if mstart not in ("new", "ref"):
                 sig += "/start=" + mstart
-            if mroute != "pack" and mfail.clause != "trailer":
+            if mroute != "pack":
                 sig += "/route=" + mroute
         case = {"kind": "valid", "unit": unit.name, "recipe": recipe, "start": mstart, "history": mhist, "route": mroute, "tier": tier}
         hit = _SEEN_SITES[ck] = (sig, case, mfail, valid_repro(unit, recipe, mstart, mhist, mroute, mfail))
